@@ -76,6 +76,8 @@ def gen_value(rng, risky_p, fmt_hint=None, multiline_p=0.0):
     if rng.random() >= multiline_p:
         return gen_text(rng, risky_p, 40)
     lines = [gen_text(rng, risky_p, 24) for _ in range(rng.choice([2, 2, 3, 4]))]
+    if rng.random() < 0.35:
+        lines.insert(rng.randrange(1, len(lines)), '')     # blank line inside the value (dropped by the readers' normalisation)
     return '\n'.join(lines)
 
 
